@@ -12,7 +12,7 @@
 From WK Require Import Base.Base Gen.Consts_C29 Model.ChanAppend Model.ChanAppend_C29
      Proof.ChanAppend_coalesce Proof.ChanAppend_expand Proof.ChanAppend_writer
      Proof.ChanAppend_run Proof.ChanAppend_pipeline Proof.ChanAppend_store Proof.ChanAppend_monitor
-     Proof.ChanAppend_probe Proof.ChanAppend_monitor_pure.
+     Proof.ChanAppend_probe Proof.ChanAppend_monitor_pure Proof.ChanAppend_shard.
 From Coq Require Import Sorted Permutation.
 Open Scope N_scope.
 
@@ -283,3 +283,27 @@ Proof. vm_compute. split; reflexivity. Qed.
    defaultAppendInflightBatchesPerChannel keeps one append in flight per channel *)
 Example c29_default_single_inflight : (Z.of_N c29_default_inflight <= 1)%Z.
 Proof. vm_compute. discriminate. Qed.
+
+(* ---- one writer per channel (shard.go getOrCreate / reclaim sweep, writer.go idleExpired) ---------
+   The ordering theorems are about ONE pipeline per channel.  The shard may delete a
+   writer from its map only when idleExpired holds; as transcribed from the code this
+   implies the writer owns no admitted, unfinished send ... *)
+Theorem c29_reclaim_only_idle : forall w now retention,
+  idleExpired w now retention = true -> has_work w = false.
+Proof. exact idle_expired_no_work. Qed.
+Print Assumptions c29_reclaim_only_idle.
+
+(* ... hence, for every interleaving of submissions (with creation + sweep), writer
+   advances, append completions and clock ticks, a channel has at most one writer — in
+   the map or already swept — that holds admitted-but-unfinished work *)
+Theorem c29_single_writer : forall retention hw limit evs ch,
+  (length (working_writers (srun writer_idle retention hw limit evs) ch) <= 1)%nat.
+Proof. exact single_working_writer. Qed.
+Print Assumptions c29_single_writer.
+
+(* seeded change C29-b: with the test "nothing runnable right now" a writer whose append
+   is in flight is swept and the channel gets a second working writer *)
+Theorem c29_single_writer_refuted :
+  length (working_writers (srun idle_nothing_runnable 10 0 1 reclaim_witness) 1) = 2%nat.
+Proof. exact single_working_writer_refuted. Qed.
+Print Assumptions c29_single_writer_refuted.
